@@ -4,6 +4,7 @@ import (
 	"fmt"
 	"go/ast"
 	"go/constant"
+	"go/token"
 	"go/types"
 	"regexp"
 	"strings"
@@ -33,6 +34,14 @@ func runC08(r *Run, p *Prog) {
 		r.Unresolved("B1", why2)
 		return
 	}
+	stmtTextOf = func(st ast.Stmt) (string, bool) {
+		es, ok := st.(*ast.ExprStmt)
+		if !ok {
+			return "", false
+		}
+		t, ok := w.StmtText[es]
+		return t, ok
+	}
 	info := p.Pkgs[pkgGen].TypesInfo
 	tw, flag, sw := typeWriter(p, w)
 	if tw == nil {
@@ -55,54 +64,84 @@ func runC08(r *Run, p *Prog) {
 		if n == 0 {
 			r.Ob("B1", tw.Name.Name, "the type writer emits JSON tags", tw.Pos(), false, "no splice inside a struct tag: generated structs would be encoded under their Go member names")
 		}
-		// omitempty exactly under Kind == TypeMaybe
+		// omitempty exactly under Kind == TypeMaybe: in the type writer and the generator functions it calls (the
+		// struct case may be a helper), the text "omitempty" occurs once, inside an `if <field>.Type.Kind == TypeMaybe`
+		// without else - written there or appended to the tag built in a local
+		var bodies []*ast.FuncDecl
+		seenFd := map[*ast.FuncDecl]bool{}
+		var collect func(fd *ast.FuncDecl)
+		collect = func(fd *ast.FuncDecl) {
+			if fd == nil || fd.Body == nil || seenFd[fd] {
+				return
+			}
+			seenFd[fd] = true
+			bodies = append(bodies, fd)
+			ast.Inspect(fd.Body, func(n ast.Node) bool {
+				if c, ok := n.(*ast.CallExpr); ok {
+					switch f := c.Fun.(type) {
+					case *ast.Ident:
+						collect(w.funcs[f.Name])
+					case *ast.SelectorExpr:
+						collect(w.methodDecl(f))
+					}
+				}
+				return true
+			})
+		}
+		collect(tw)
+		hasOmit := func(n ast.Node) int {
+			c := 0
+			ast.Inspect(n, func(x ast.Node) bool {
+				if bl, ok := x.(*ast.BasicLit); ok && bl.Kind == token.STRING && strings.Contains(bl.Value, "omitempty") {
+					c++
+				}
+				return true
+			})
+			return c
+		}
 		found := false
-		ast.Inspect(tw.Body, func(n ast.Node) bool {
-			ifs, ok := n.(*ast.IfStmt)
-			if !ok {
-				return true
-			}
-			writes := false
-			for _, st := range ifs.Body.List {
-				for _, s := range constParts(info, writeArg(st)) {
-					if strings.Contains(s, "omitempty") {
-						writes = true
-					}
-				}
-			}
-			if !writes {
-				return true
-			}
-			if be, ok := ifs.Cond.(*ast.BinaryExpr); ok && be.Op.String() == "==" {
-				l, rr := types.ExprString(be.X), types.ExprString(be.Y)
-				if strings.HasSuffix(l, ".Type.Kind") && strings.HasSuffix(rr, "TypeMaybe") && ifs.Else == nil {
-					found = true
-					return false
-				}
-			}
-			if !found {
-				r.Ob("B1", tw.Name.Name, "`omitempty` is emitted exactly for optional fields", ifs.Pos(), false, "condition is "+types.ExprString(ifs.Cond))
-			}
-			return true
-		})
-		// any omitempty outside such an if?
 		cnt := 0
-		ast.Inspect(tw.Body, func(n ast.Node) bool {
-			if c, ok := n.(*ast.CallExpr); ok && isBufWrite(c) {
-				for _, s := range constParts(info, c.Args[0]) {
-					if strings.Contains(s, "omitempty") {
-						cnt++
+		for _, fd := range bodies {
+			cnt += hasOmit(fd.Body)
+			ast.Inspect(fd.Body, func(n ast.Node) bool {
+				ifs, ok := n.(*ast.IfStmt)
+				if !ok || hasOmit(ifs.Body) == 0 {
+					return true
+				}
+				// the innermost if that holds the text
+				inner := false
+				for _, st := range ifs.Body.List {
+					ast.Inspect(st, func(y ast.Node) bool {
+						if i2, ok := y.(*ast.IfStmt); ok && hasOmit(i2.Body) > 0 {
+							inner = true
+						}
+						return true
+					})
+				}
+				if inner {
+					return true
+				}
+				okCond := false
+				if be, ok := ifs.Cond.(*ast.BinaryExpr); ok && be.Op.String() == "==" {
+					l, rr := types.ExprString(be.X), types.ExprString(be.Y)
+					if strings.HasSuffix(l, ".Type.Kind") && strings.HasSuffix(rr, "TypeMaybe") && ifs.Else == nil {
+						okCond = true
 					}
 				}
-			}
-			return true
-		})
+				if okCond {
+					found = true
+				} else {
+					r.Ob("B1", tw.Name.Name, "`omitempty` is emitted exactly for optional fields", ifs.Pos(), false, "condition is "+types.ExprString(ifs.Cond))
+				}
+				return true
+			})
+		}
 		r.Ob("B1", tw.Name.Name, "`omitempty` is emitted exactly for optional fields", tw.Pos(), found && cnt == 1, fmt.Sprintf("guarded by `<field>.Type.Kind == TypeMaybe`: %v; omitempty fragments: %d", found, cnt))
 	})
 	// ---- B2
 	r.Guard("B2", func() {
 		n := 0
-		for name, fd := range w.funcs {
+		for name, fd := range w.decls() {
 			if fd.Body == nil {
 				continue
 			}
@@ -130,28 +169,22 @@ func runC08(r *Run, p *Prog) {
 						if !ok {
 							continue
 						}
-						id, ok := call.Fun.(*ast.Ident)
-						if !ok || id.Name != tw.Name.Name || i == 0 {
+						isTW, flagArg := typeWriterCall(w, tw, flag, call, 0)
+						if !isTW || i == 0 {
 							continue
 						}
 						prev := lastConstOf(info, list[i-1])
 						prevAll := strings.Join(constParts(info, writeArg(list[i-1])), "")
+						if es, ok := list[i-1].(*ast.ExprStmt); ok {
+							if t, ok := w.StmtText[es]; ok {
+								prevAll = t
+							}
+						}
 						isDecl := strings.HasSuffix(prev, "var in ") || strings.HasSuffix(prev, "var out ") || (strings.HasPrefix(prevAll, "type ") && strings.HasSuffix(prev, " "))
 						if !isDecl {
 							continue
 						}
 						n++
-						// the flag argument
-						var flagArg ast.Expr
-						pi := 0
-						for _, fld := range tw.Type.Params.List {
-							for _, pn := range fld.Names {
-								if info.Defs[pn] == flag && pi < len(call.Args) {
-									flagArg = call.Args[pi]
-								}
-								pi++
-							}
-						}
 						ok2 := false
 						if flagArg != nil {
 							if tv, ok := info.Types[flagArg]; ok && tv.Value != nil && tv.Value.Kind() == constant.Bool {
@@ -180,6 +213,7 @@ func runC08(r *Run, p *Prog) {
 			kinds := kindsOfCase(info, cc)
 			// first thing written in the arm
 			first, firstDyn := "", ""
+			depthB3 := 0
 			var find func(list []ast.Stmt) bool
 			find = func(list []ast.Stmt) bool {
 				for _, st := range list {
@@ -193,6 +227,26 @@ func runC08(r *Run, p *Prog) {
 							}
 						}
 						return true
+					}
+					if es, ok := st.(*ast.ExprStmt); ok {
+						// the arm delegates to a helper of the generator (`writeStructType(b, t.Fields, ...)`)
+						if c, ok := es.X.(*ast.CallExpr); ok {
+							var hd *ast.FuncDecl
+							switch f := c.Fun.(type) {
+							case *ast.Ident:
+								hd = w.funcs[f.Name]
+							case *ast.SelectorExpr:
+								hd = w.methodDecl(f)
+							}
+							if hd != nil && hd != tw && hd.Body != nil && depthB3 < 3 {
+								depthB3++
+								got := find(hd.Body.List)
+								depthB3--
+								if got {
+									return true
+								}
+							}
+						}
 					}
 					if ifs, ok := st.(*ast.IfStmt); ok {
 						// both branches must start alike: take the else branch (non-empty struct) and the then branch
@@ -307,7 +361,28 @@ func runC08(r *Run, p *Prog) {
 		}
 		r.Ob("B5", root, "unknown methods are answered MethodNotFound(methodname)", w.funcs[root].Pos(), has("default:", "return call.ReplyMethodNotFound(ctx, methodname)"), "")
 		r.Ob("B5", root, "methods the implementation does not override answer MethodNotImplemented", w.funcs[root].Pos(), has("ReplyMethodNotImplemented(ctx, \""), "")
-		r.Ob("B5", root, "the Send stub passes the caller's flags through", w.funcs[root].Pos(), has("c.Send(ctx, \"") && has("in, flags)") && has("nil, flags)"), "")
+		// every emitted `c.Send(ctx, "...` is completed by `, flags)` in the same stretch of text
+		sendOK, nsend := true, 0
+		for _, fr := range w.Segs {
+			rest := fr.Text
+			for {
+				i := strings.Index(rest, "c.Send(ctx, \"")
+				if i < 0 {
+					break
+				}
+				nsend++
+				rest = rest[i+1:]
+				nl := strings.Index(rest, "\n")
+				line := rest
+				if nl >= 0 {
+					line = rest[:nl]
+				}
+				if !strings.HasSuffix(strings.TrimSpace(line), ", flags)") {
+					sendOK = false
+				}
+			}
+		}
+		r.Ob("B5", root, "the Send stub passes the caller's flags through", w.funcs[root].Pos(), sendOK && nsend > 0, fmt.Sprintf("%d emitted c.Send calls, all ending in `, flags)`: %v", nsend, sendOK))
 		r.Ob("B5", root, "the dispatcher switches on the method name it is given", w.funcs[root].Pos(), has("switch methodname {"), "")
 	})
 	// ---- B6: the standard replies are invoked on the library's varlink.Call, never on the generated wrapper type (whose
